@@ -106,6 +106,13 @@ def documented (v : V) (e : View) : Option Bool :=
   | .isFalse => some (!truthy e.value)
   | .converted => some (e.value != .none)
   | .valueIn options => some (options.any (fun o => same e.value o))
+  -- a text container: the value is "in" it when it occurs at some offset; a value that is not
+  -- text is in no text
+  | .valueInText container =>
+    match e.value with
+    | .str s => some ((List.range (container.length + 1)).any
+        (fun i => (container.drop i).take s.length == s))
+    | _ => some false
   | .shorterThan maxlength => some (decide ((e.u.length : Int) ≤ maxlength))
   | .longerThan minlength => some (decide (minlength ≤ (e.u.length : Int)))
   | .lengthBetween lo hi => some (decide (lo ≤ (e.u.length : Int) ∧ (e.u.length : Int) ≤ hi))
